@@ -13,6 +13,7 @@ package main
 
 import (
 	"bytes"
+	"context"
 	"encoding/hex"
 	"fmt"
 	"io"
@@ -79,8 +80,8 @@ var c19Pool = sync.Pool{New: func() interface{} {
 	ci.i, _ = newInterp("")
 	// '$c19_mark'(Kind, X): record the value X that the preceding goal delivered, then continue INLINE
 	// (a built-in calling its continuation directly, like Unify does).
-	ci.i.Register2(engine.NewAtom("$c19_mark"), func(_ *engine.VM, kind, x engine.Term, k engine.Cont, env *engine.Env) *engine.Promise {
-		ci.rec = append(ci.rec, c19Value(env.Resolve(kind).(engine.Atom).String(), env.Resolve(x)))
+	ci.i.Register2(engine.NewAtom("$c19_mark"), func(vm *engine.VM, kind, x engine.Term, k engine.Cont, env *engine.Env) *engine.Promise {
+		ci.rec = append(ci.rec, c19Value(vm, env.Resolve(kind).(engine.Atom).String(), env.Resolve(x)))
 		return k(env)
 	})
 	return ci
@@ -102,7 +103,7 @@ func c19TempFile(content []byte) string {
 }
 
 // c19Value renders what a goal delivered.
-func c19Value(kind string, v engine.Term) string {
+func c19Value(vm *engine.VM, kind string, v engine.Term) string {
 	switch kind {
 	case "gc", "pc":
 		if a, ok := v.(engine.Atom); ok {
@@ -122,10 +123,17 @@ func c19Value(kind string, v engine.Term) string {
 			return fmt.Sprintf("b%d", int64(n))
 		}
 	case "rt":
-		if a, ok := v.(engine.Atom); ok && a.String() == "end_of_file" {
-			return "eof"
+		switch t := v.(type) {
+		case engine.Atom:
+			if t.String() == "end_of_file" {
+				return "eof"
+			}
+			return "t" + wire(v, nil, newVarNamer())
+		case engine.Integer:
+			return "t" + wire(v, nil, newVarNamer())
 		}
-		return "t" + wire(v, nil, newVarNamer())
+		// any other clause: its writeq text (the generators draw clauses whose writeq text is their own text)
+		return "tC1:$clause~A" + encName(c19Writeq(vm, v))
 	case "ae":
 		if a, ok := v.(engine.Atom); ok {
 			return a.String()
@@ -142,6 +150,19 @@ func c19Value(kind string, v engine.Term) string {
 		return "ok"
 	}
 	return "?" + encName(wire(v, nil, newVarNamer()))
+}
+
+// c19Writeq: writeq(T) as text (T is ground in the cases that use it).
+func c19Writeq(vm *engine.VM, t engine.Term) string {
+	var buf bytes.Buffer
+	out := engine.NewOutputTextStream(&buf)
+	_, err := engine.WriteTerm(vm, out, t, engine.List(compound("quoted", atom("true"))), func(*engine.Env) *engine.Promise {
+		return engine.Bool(true)
+	}, nil).Force(context.Background())
+	if err != nil {
+		return "?" + err.Error()
+	}
+	return buf.String()
 }
 
 // c19ErrTok classifies an error of an input/output goal.
@@ -310,7 +331,7 @@ func runC19(payload string) string {
 	}
 
 	var out []string
-	sawEOF, multi, afterPeek, errs := 0, 0, 0, 0
+	sawEOF, multi, afterPeek, errs, compoundRead := 0, 0, 0, 0, 0
 	for _, q := range queries {
 		var goals []engine.Term
 		for _, op := range q {
@@ -328,6 +349,9 @@ func runC19(payload string) string {
 			}
 			if strings.HasPrefix(t, "!") {
 				errs++
+			}
+			if strings.HasPrefix(t, "tC1:$clause") {
+				compoundRead++
 			}
 			if j > 0 && t != "_" && lop != "pp" && lop != "pe" && lop != "ae" {
 				if p := strings.ToLower(q[j-1]); p == "pc" || p == "pb" || p == "rt" {
@@ -349,8 +373,8 @@ func runC19(payload string) string {
 		}
 		return 0
 	}
-	return strings.Join(out, " ; ") + fmt.Sprintf(" ### nt=%d rd=%s ty=%s eof=%s queries=%d after_peek=%d saw_eof=%d multibyte=%d errors=%d",
-		nt, kv["rd"], kv["ty"], kv["eof"], bucket(len(queries)-drain), b(afterPeek), bucket(sawEOF), b(multi), b(errs))
+	return strings.Join(out, " ; ") + fmt.Sprintf(" ### nt=%d rd=%s ty=%s eof=%s queries=%d after_peek=%d saw_eof=%d multibyte=%d errors=%d compound_read=%d",
+		nt, kv["rd"], kv["ty"], kv["eof"], bucket(len(queries)-drain), b(afterPeek), bucket(sawEOF), b(multi), b(errs), b(compoundRead))
 }
 
 func bucket(n int) int {
@@ -485,7 +509,54 @@ func c19ScanClause(b []byte) (string, int) {
 
 // c19InFragment simulates the cursor over the ops; false if some read_term would meet a clause outside
 // the fragment (then the case is not generated).  Errors end a conjunction.
-func c19InFragment(src []byte, binary bool, eof string, queries [][]string, drain int) bool {
+// c19Span: a generated clause: where its first token starts and where it ends (behind the end token).
+type c19Span struct{ tok, end int }
+
+// c19SkipLayout skips layout and complete comments from b[0:]; returns the offset reached, or -1 if the
+// text from there is a clean end of input (layout and comments only), or -2 if a '/' that opens no comment.
+func c19SkipLayout(b []byte) int {
+	i := 0
+	for i < len(b) {
+		r, n := utf8.DecodeRune(b[i:])
+		switch {
+		case unicode.IsSpace(r):
+			i += n
+		case r == '%':
+			for {
+				if i >= len(b) {
+					return -1
+				}
+				r, n := utf8.DecodeRune(b[i:])
+				i += n
+				if r == '\n' {
+					break
+				}
+			}
+		case r == '/':
+			if i+1 < len(b) && b[i+1] == '*' {
+				i += 2
+				for {
+					if i >= len(b) {
+						return -1
+					}
+					if b[i] == '*' && i+1 < len(b) && b[i+1] == '/' {
+						i += 2
+						break
+					}
+					_, n := utf8.DecodeRune(b[i:])
+					i += n
+				}
+			} else {
+				return i
+			}
+		default:
+			return i
+		}
+	}
+	return -1
+}
+
+func c19InFragment(src []byte, binary bool, eof string, queries [][]string, drain int, spans []c19Span) bool {
 	idx, delivered := 0, false
 	// runs one conjunction; false = a read_term outside the fragment
 	query := func(q []string) bool {
@@ -530,8 +601,26 @@ func c19InFragment(src []byte, binary bool, eof string, queries [][]string, drai
 				}
 			case "rt":
 				kind, n := c19ScanClause(src[idx:])
+				if kind == "syn" {
+					// not an atomic clause: in the fragment only if the cursor is in front of a generated clause
+					kind = ""
+					if at := c19SkipLayout(src[idx:]); at >= 0 {
+						for _, sp := range spans {
+							if sp.tok != idx+at {
+								continue
+							}
+							// its '.' is an end token only in front of layout, '%' or the end of the input
+							if sp.end < len(src) {
+								if c, _ := utf8.DecodeRune(src[sp.end:]); !unicode.IsSpace(c) && c != '%' {
+									continue
+								}
+							}
+							kind, n = "term", sp.end-idx
+						}
+					}
+				}
 				switch kind {
-				case "syn":
+				case "":
 					return false
 				case "eof":
 					idx += n
@@ -582,8 +671,94 @@ func genC19Token(r *rand.Rand) string {
 	}
 }
 
-func genC19Source(r *rand.Rand) []byte {
+// genC19Term: a ground term whose writeq text contains no layout outside quoted atoms.
+func genC19Term(r *rand.Rand, depth int) engine.Term {
+	leaf := func() engine.Term {
+		switch r.Intn(4) {
+		case 0:
+			return engine.Integer(r.Intn(100))
+		case 1:
+			return atom(pick(r, []string{"a b", "X", "it's", "[]", "{}", "é é"}))
+		default:
+			s := pick(r, c19Letters[:6])
+			for n := r.Intn(2); n > 0; n-- {
+				s += pick(r, c19Letters)
+			}
+			return atom(s)
+		}
+	}
+	if depth >= 2 || r.Intn(3) == 0 {
+		return leaf()
+	}
+	sub := func() engine.Term { return genC19Term(r, depth+1) }
+	switch r.Intn(6) {
+	case 0, 1:
+		n := 1 + r.Intn(3)
+		args := make([]engine.Term, n)
+		for i := range args {
+			args[i] = sub()
+		}
+		return compound(pick(r, []string{"f", "g", "foo", "é"}), args...)
+	case 2:
+		n := r.Intn(3)
+		elems := make([]engine.Term, n)
+		for i := range elems {
+			elems[i] = sub()
+		}
+		return engine.List(elems...)
+	case 3:
+		return compound("{}", sub())
+	default:
+		return compound(pick(r, []string{"+", "-", "*", "=", ":-", ";", "->", ","}), sub(), sub())
+	}
+}
+
+// c19LayoutFree: no layout outside quoted atoms (then the clause text is what the model's scanner reports).
+func c19LayoutFree(s string) bool {
+	inq := false
+	for _, c := range s {
+		switch {
+		case c == '\'':
+			inq = !inq
+		case !inq && (unicode.IsSpace(c) || c == '%'):
+			return false
+		case c == '\\' || c == '\n':
+			return false
+		}
+	}
+	return !inq
+}
+
+// genC19Clause: the text of one clause (without the end token) and whether it is a compound one.
+func genC19Clause(r *rand.Rand, ci *c19Interp) string {
+	if r.Intn(5) < 2 {
+		for try := 0; try < 20; try++ {
+			t := genC19Term(r, 0)
+			s := c19Writeq(&ci.i.VM, t)
+			if !c19LayoutFree(s) || strings.HasSuffix(s, ".") {
+				continue
+			}
+			// layout after some commas outside quoted atoms
+			var sb strings.Builder
+			inq := false
+			for _, c := range s {
+				sb.WriteRune(c)
+				if c == '\'' {
+					inq = !inq
+				}
+				if c == ',' && !inq && r.Intn(3) == 0 {
+					sb.WriteString(pick(r, []string{" ", "\n  ", " /* c */ ", " % c\n"}))
+				}
+			}
+			return sb.String()
+		}
+	}
+	return genC19Token(r)
+}
+
+func genC19Source(r *rand.Rand, ci *c19Interp) ([]byte, []c19Span) {
 	var sb strings.Builder
+	var spans []c19Span
 	switch k := r.Intn(20); {
 	case k < 12: // clauses
 		if r.Intn(3) == 0 {
@@ -591,11 +766,13 @@ func genC19Source(r *rand.Rand) []byte {
 		}
 		n := 1 + r.Intn(3)
 		for i := 0; i < n; i++ {
-			sb.WriteString(genC19Token(r))
+			tok := sb.Len()
+			sb.WriteString(genC19Clause(r, ci))
 			if r.Intn(4) == 0 {
 				sb.WriteString(pick(r, c19Layout))
 			}
 			sb.WriteString(".")
+			spans = append(spans, c19Span{tok: tok, end: sb.Len()})
 			if i < n-1 {
 				sb.WriteString(pick(r, c19Layout))
 			}
@@ -624,7 +801,7 @@ func genC19Source(r *rand.Rand) []byte {
 			sb.WriteString(pick(r, append(c19Invalid, c19Chars...)))
 		}
 	}
-	return []byte(sb.String())
+	return []byte(sb.String()), spans
 }
 
 var c19TextOps = []string{"gc", "gc", "gc", "pc", "pc", "rt", "rt", "ae", "pp", "pe", "GC", "PC", "RT", "AE"}
@@ -650,17 +827,23 @@ func c19Render(queries [][]string) string {
 
 func genC19(r *rand.Rand, n int, tier string) []string {
 	var out []string
+	ci := c19Pool.Get().(*c19Interp)
+	defer c19Pool.Put(ci)
+	var spans []c19Span
 	emit := func(src []byte, rd string, binary bool, eof string, drain int, queries [][]string) {
-		if !c19InFragment(src, binary, eof, queries, drain) {
+		if !c19InFragment(src, binary, eof, queries, drain, spans) {
 			return
 		}
 		out = append(out, c19Header(src, rd, binary, eof, drain)+" | "+c19Render(queries))
 	}
 	if tier == "thorough" {
+		spans = []c19Span{{tok: 0, end: 7}, {tok: 8, end: 10}} // of the source "f(a,b). c." below; no effect on the others
 		genC19Exhaustive(emit)
+		spans = nil
 	}
 	for len(out) < n {
-		src := genC19Source(r)
+		var src []byte
+		src, spans = genC19Source(r, ci)
 		binary := r.Intn(4) == 0
 		rd, eof := pick(r, c19Readers), pick(r, c19Actions)
 		ops := c19TextOps
@@ -693,7 +876,9 @@ func genC19(r *rand.Rand, n int, tier string) []string {
 			sep[i] = []string{seq[i]}
 		}
 		emit(src, rd, binary, eof, drain, [][]string{seq})
-		emit(src, rd, binary, eof, drain, sep)
+		if k > 1 {
+			emit(src, rd, binary, eof, drain, sep)
+		}
 		if r.Intn(3) == 0 && k > 2 {
 			var grp [][]string
 			cur := []string{}
@@ -725,6 +910,7 @@ func genC19Exhaustive(emit func(src []byte, rd string, binary bool, eof string, 
 	cfgs := []cfg{
 		{"é1", "str", false, "reset"},
 		{"a. b.", "file", false, "error"},
+		{"f(a,b). c.", "str", false, "eof_code"},
 		{"a.\n", "eofd", false, "eof_code"},
 		{"\xff1", "one", false, "reset"},
 		{"", "file", false, "error"},
